@@ -21,6 +21,8 @@ pub enum FileCase {
     BedMany { n: u32, opts: Opts },
     /// bigwiginfo / bigbedinfo on an encoder-written file (C06 tool part)
     Info(crate::clifam::InfoTool),
+    /// `bigbedtobed --zoom` on a file written by the library (C08 tool part)
+    ZoomTool(BedCase),
 }
 
 pub fn expand(c: &FileCase) -> FileCase {
@@ -1185,9 +1187,20 @@ impl Check for C08 {
         "C08"
     }
     fn cases(&self, tier: Tier) -> Box<dyn Iterator<Item = FileCase> + '_> {
-        bed_zoom_family(tier)
+        let zo = zoom_opts(tier == Tier::Quick);
+        let step = if tier == Tier::Quick { 4 } else { 1 };
+        let tools = (0..3usize).flat_map(move |si| {
+            let zo = zo.clone();
+            (0..8usize).step_by(step).map(move |li| FileCase::ZoomTool(bed_multi(si, li, &zo[(li * 3 + si) % zo.len()])))
+        });
+        Box::new(bed_zoom_family(tier).chain(tools))
     }
     fn run(&self, case: &FileCase, out: &mut Outcome) {
+        if let FileCase::ZoomTool(c) = case {
+            out.nontrivial = true;
+            crate::clifam::c08_tool(c, out);
+            return;
+        }
         let FileCase::Bed(c) = expand(case) else { return };
         let Some(bytes) = do_write_bed(&c, out) else { return };
         let dec = structure(&bytes, c.chroms.len(), out);
